@@ -84,7 +84,11 @@ def check_c14(rep):
 def check_c15_api(rep, n):
     sc = [(f"c15-{p}-{s}", p, *GC.c15_script(s, p)) for i, s in enumerate(seeds(n, 15))
           for p in (("at4",) if i % 2 == 0 else ("at5",))]
-    run_generated(rep, "shutdown() at chosen instants of the client's life, k loop iterations, long idle, send, optional re-init", sc)
+    # "a later init() works as on a fresh object and rebuilds the model from scratch": the initialisation clauses are
+    # part of C15 in these scripts (every script that re-initialises does so after a shutdown)
+    run_generated(rep, "shutdown() at chosen instants of the client's life, k loop iterations, long idle, send, optional re-init; "
+                       "shutdown and re-init while the handler of the last handshake answer is still running", sc,
+                  also=("InitTrueEarly", "InitNotTrue", "InitEarlyFalse", "InitHangs", "InitialisedWrong", "HandshakeStalled", "HandshakeOrder"))
     l2c_exhaustive(rep, "shutdown() enabled in every state of the client (at4)", dict(PROTO='"at4"', MaxEnv=10, MaxFrames=7))
     if n > 500:
         l2c_exhaustive(rep, "shutdown() enabled in every state of the client (at5)", dict(PROTO='"at5"', MaxEnv=11, MaxFrames=7))
@@ -188,7 +192,16 @@ def _pair_cases(tr4, tr5):
             ev = tr[i]
             if ev["e"] == "snapshot" and ev.get("tag") == "pair":
                 acs = ev["model"]["air_conditioners"]
-                snaps.append(acs if isinstance(acs, list) else [])
+                acs = acs if isinstance(acs, list) else []
+                # the zones of a unit are matched by id, not by position (no statement fixes their order; the
+                # AT4 client lists them in the iteration order of a set)
+                norm = []
+                for a in acs:
+                    zs = a.get("zones")
+                    if isinstance(zs, list) and all(isinstance(z, dict) and isinstance(z.get("zone_id"), dict) and "v" in z["zone_id"] for z in zs):
+                        a = dict(a, zones=sorted(zs, key=lambda z: z["zone_id"]["v"]))
+                    norm.append(a)
+                snaps.append(norm)
             if ev["e"] == "call" and ev.get("target", "socket") != "socket" and ev["method"] not in ("init", "shutdown"):
                 cid = ev["id"]
                 frame, res = [], "none"
